@@ -146,7 +146,10 @@ def build_frame(ctx, op, symbolic):
         return f
     if t == 'WU':
         f = hf.WindowUpdateFrame(op[1])
-        f.window_increment = _sv('inc', 1, 1000, 10) if symbolic else 10
+        if len(op) > 2:         # ('WU', sid, 'over'): an increment that overflows any window
+            f.window_increment = core.INT31
+        else:
+            f.window_increment = _sv('inc', 1, 1000, 10) if symbolic else 10
         return f
     if t == 'PP':
         _t, parent, promised = op
@@ -200,8 +203,23 @@ def call_api(ctx, op, symbolic):
     me = ctx.me
     t = op[0]
     if t == 'send_headers':
-        _t, sid, kind, end = op
-        me.send_headers(sid, KIND_HEADERS[kind], end_stream=end)
+        sid, kind, end = op[1], op[2], op[3]
+        kw = {}
+        if len(op) > 4:
+            # ('send_headers', sid, kind, end, 'prio'): any non-empty subset of the three
+            # priority arguments, each with a symbolic valid value
+            if symbolic:
+                hw, hd = core.sym_bool('has_weight'), core.sym_bool('has_depends_on')
+                he = core.sym_bool('has_exclusive')
+                if hw:
+                    kw['priority_weight'] = _sv('w', 1, 256, 16)
+                if hd:
+                    kw['priority_depends_on'] = _sv('dep', 0, 9, 0)
+                if he or not (hw or hd):
+                    kw['priority_exclusive'] = core.sym_bool('exclusive')
+            else:
+                kw['priority_weight'] = 16
+        me.send_headers(sid, KIND_HEADERS[kind], end_stream=end, **kw)
     elif t == 'send_data':
         _t, sid, end = op
         data = sym_bytes('dlen', 0, 1000, default=5) if symbolic else b'hello'
@@ -277,6 +295,8 @@ def run_op(ctx, op, symbolic=False, observe=True):
                                     kind=op[2] if op[0] in ('HEADERS', 'HEADERSP') else None)
             elif out.cls[0] == 'conn_error':
                 ctx.obs.on_conn_error()
+            elif out.cls[0] == 'stream_error' and op[0] == 'PP':
+                ctx.obs.on_push_refused(op[1])
     ctx.history.append(op)
     return out
 
